@@ -1,8 +1,8 @@
 (* C17: hdf5.Open -- loading the object tree (file.go, group.go) as a reader program.
    The loader's mutable state (visitedBTrees, the set of objects being loaded, the load counter) is threaded
-   explicitly.  [repaired] selects how readSignature (file.go:191) treats a failed read:
-     false = /repo before notes/fixes/c17-read-signature-error.patch: "" is returned (an error is dropped),
-     true  = with the patch: the error is returned.
+   explicitly.  [repaired] selects how readSignature (file.go:193) treats a failed read:
+     false = /repo before 216d529 (notes/fixes/c17-read-signature-error.patch): "" is returned (an error is dropped),
+     true  = since 216d529: the error is returned.
    No proofs here (Proofs/IOProgOpen.v). *)
 From HV Require Import Base.Prelude Base.Outcome Base.Bytes Model.IOProg Model.IOProgReader.
 From HV Require Import Model.CodecSuper Model.CodecOhdr Model.CodecMsg Model.CodecType Model.CodecLink.
@@ -30,15 +30,15 @@ Definition mem (a : N) (l : list N) : bool := existsb (N.eqb a) l.
 Section Loader.
 Variable repaired : bool.
 Variable sb : superblock'.
-Variable budget : N.          (* File.maxLoads = fileSize/8 + 1024 (file.go:104) *)
+Variable budget : N.          (* File.maxLoads = fileSize/8 + 1024 (file.go:105) *)
 Variable hfuel : nat.         (* fuel of the object header / dataset loops *)
 Let be_ := spp_bigendian sb.
 Let v0 := spp_version sb =? 0.
 
-(* readSignature (file.go:191) *)
+(* readSignature (file.go:193) *)
 Definition p_sig {A} (addr : N) (k : bytes -> prog A) : prog A :=
   if repaired then ReadAt addr 4 k
-  else Swallow (ReadAt addr 4 (fun b => Ret b)) [] k.       (* file.go:195  err != nil => return "" *)
+  else Swallow (ReadAt addr 4 (fun b => Ret b)) [] k.       (* file.go:196  err != nil => return "" (before /repo 216d529) *)
 
 (* ReadObjectHeader where only Messages / Type / Name are used afterwards: the attribute error kept in the header
    (objectheader.go:153) is not looked at *)
@@ -69,7 +69,7 @@ Definition enter (st : lstate) (addr : N) : entered :=
 Definition leave (st : lstate) (addr : N) : lstate :=
   {| vbt := vbt st; loading := filter (fun a => negb (a =? addr)) (loading st); cnt := cnt st |}.
 
-(* first Symbol Table message with at least 16 bytes: (btree, heap)  (group.go:344, 535) *)
+(* first Symbol Table message with at least 16 bytes: (btree, heap)  (group.go:347, 546) *)
 Fixpoint first_symtab (ms : list hmsg') : option (N * N) :=
   match ms with
   | [] => None
@@ -77,7 +77,7 @@ Fixpoint first_symtab (ms : list hmsg') : option (N * N) :=
               then match dec_symtab be_ (hmp_data m) with Ok s => Some (st_btree s, st_heap s) | _ => None end
               else first_symtab r
   end.
-(* loadModernGroup's loop keeps the LAST one (group.go:277) *)
+(* loadModernGroup's loop keeps the LAST one (group.go:280) *)
 Definition last_symtab (ms : list hmsg') : option (N * N) := first_symtab (rev ms).
 
 (* ReadBTreeEntries (btree.go:31), "BTRE" nodes *)
@@ -112,7 +112,7 @@ Variable rec : req -> lstate -> prog (node * lstate).
 Definition load_entry (heap : bytes) (e : stentry) (st : lstate) : prog (node * lstate) :=
   match e with
   | (lo, oa, ct, cb, ch) =>
-      bind (lift (heap_string heap lo)) (fun name =>           (* group.go:456 / 478: the error is returned *)
+      bind (lift (heap_string heap lo)) (fun name =>           (* group.go:465 / 487: the error is returned *)
       if (ct =? 1) && negb (cb =? 0) then rec (RCached oa name cb ch) st else rec (RObject oa name) st)
   end.
 
@@ -120,23 +120,23 @@ Fixpoint load_entries (heap : bytes) (es : list stentry) (st : lstate) : prog (l
   match es with
   | [] => Ret ([], st)
   | e :: r =>
-      if is_soft e then load_entries heap r st else          (* group.go:452: soft links are skipped *)
-      bind (load_entry heap e st) (fun x =>                     (* group.go:469 / 492: since /repo a539b60 the error is returned *)
+      if is_soft e then load_entries heap r st else          (* group.go:461: soft links are skipped *)
+      bind (load_entry heap e st) (fun x =>                     (* group.go:478 / 501: since /repo a539b60 the error is returned *)
       bind (load_entries heap r (snd x)) (fun y => Ret (fst x :: fst y, snd y)))
   end.
 
-(* the entry loop of loadChildren (group.go:429-497) *)
+(* the entry loop of loadChildren (group.go:435-506) *)
 Fixpoint children_loop (heap : bytes) (es : list stentry) (st : lstate) : prog (list node * lstate) :=
   match es with
   | [] => Ret ([], st)
   | e :: r =>
-      if is_soft e then children_loop heap r st else          (* group.go:434 *)
+      if is_soft e then children_loop heap r st else          (* group.go:440 *)
       match e with
       | (lo, oa, ct, cb, ch) =>
-          (* group.go:441  sig := readSignature(g.file.osFile, entry.ObjectAddress) *)
+          (* group.go:447  sig, err := readSignature(g.file.osFile, entry.ObjectAddress) *)
           p_sig oa (fun sg =>
             if (lo =? 0) && bytes_eqb sg SNOD then
-              (* an unnamed symbol table node: its entries are listed in this group (group.go:442-475) *)
+              (* an unnamed symbol table node: its entries are listed in this group (group.go:451-484) *)
               bind (p_snod sb oa) (fun nes =>
               bind (load_entries heap nes st) (fun x =>
               bind (children_loop heap r (snd x)) (fun y => Ret (fst x ++ fst y, snd y))))
@@ -146,25 +146,25 @@ Fixpoint children_loop (heap : bytes) (es : list stentry) (st : lstate) : prog (
       end
   end.
 
-(* Group.loadChildren (group.go:391) *)
+(* Group.loadChildren (group.go:394) *)
 Definition p_children (bt hp : N) (st : lstate) : prog (list node * lstate) :=
-  if mem bt (vbt st) then Ret ([], st) else                    (* group.go:399: already visited: no children *)
+  if mem bt (vbt st) then Ret ([], st) else                    (* group.go:402: already visited: no children *)
   let st := {| vbt := bt :: vbt st; loading := loading st; cnt := cnt st |} in
   bind (p_local_heap sb hp) (fun heap =>
-  (* group.go:411  btreeSig := readSignature(g.file.osFile, btreeAddr) *)
+  (* group.go:414  btreeSig, err := readSignature(g.file.osFile, btreeAddr) *)
   p_sig bt (fun sg =>
     if bytes_eqb sg [84; 82; 69; 69] then bind (p_group_btree sb bt) (fun es => children_loop heap es st)
     else if bytes_eqb sg [66; 84; 82; 69] then bind (p_btre bt) (fun es => children_loop heap es st)
-    else Fail)).                                              (* group.go:422: unknown signature (also "") *)
+    else Fail)).                                              (* group.go:428: unknown signature (also "") *)
 
-(* the local heap of the root group, looked up again (group.go:341-358, 528-543) *)
+(* the local heap of the root group, looked up again (group.go:344-361, 540-555) *)
 Definition root_heap (h : ohdr') : prog (option bytes) :=
   match first_symtab (ohp_msgs h) with
   | Some (_, ha) => bind (p_local_heap sb ha) (fun d => Ret (Some d))
   | None => Ret None
   end.
 
-(* the child loop of loadTraditionalGroup (group.go:368-386): always loadObject *)
+(* the child loop of loadTraditionalGroup (group.go:371-389): always loadObject *)
 Fixpoint load_entries_trad (heap : bytes) (es : list stentry) (st : lstate) : prog (list node * lstate) :=
   match es with
   | [] => Ret ([], st)
@@ -178,11 +178,11 @@ Fixpoint load_entries_trad (heap : bytes) (es : list stentry) (st : lstate) : pr
       end
   end.
 
-(* loadTraditionalGroup (group.go:321) *)
+(* loadTraditionalGroup (group.go:324) *)
 Definition p_trad (addr : N) (st : lstate) : prog (node * lstate) :=
   bind (p_snod sb addr) (fun es =>
-  (* group.go:341  rootHeader, err := core.ReadObjectHeader(root); if err == nil {...}: the error is dropped here,
-     group.go:356  if heap == nil { return error }: and converted to a failure there *)
+  (* group.go:344  rootHeader, err := core.ReadObjectHeader(root); if err == nil {...}: the error is dropped here,
+     group.go:359  if heap == nil { return error }: and converted to a failure there *)
   Swallow (with_header (spp_root sb) (fun h => Ret (Some h))) None (fun oh =>
     match oh with
     | None => Fail
@@ -194,21 +194,21 @@ Definition p_trad (addr : N) (st : lstate) : prog (node * lstate) :=
         end)
     end)).
 
-(* the link messages of loadModernGroup (group.go:246-272) *)
+(* the link messages of loadModernGroup (group.go:249-275) *)
 Fixpoint load_links (ms : list hmsg') (st : lstate) : prog (list node * lstate) :=
   match ms with
   | [] => Ret ([], st)
   | m :: r =>
       if negb (hmp_type m =? 6) then load_links r st else
-      bind (lift (dec_link (spp_offsize sb) (hmp_data m))) (fun lk =>        (* group.go:253: a parse error is returned *)
+      bind (lift (dec_link (spp_offsize sb) (hmp_data m))) (fun lk =>        (* group.go:254: a parse error is returned *)
       if lk_type lk =? 0 then
         bind (lift (read_uint (lk_value lk) (spp_offsize sb) be_)) (fun oa =>
-        bind (rec (RObject oa (lk_name lk)) st) (fun x =>                    (* group.go:261: since /repo a539b60 the error is returned *)
+        bind (rec (RObject oa (lk_name lk)) st) (fun x =>                    (* group.go:262: since /repo a539b60 the error is returned *)
         bind (load_links r (snd x)) (fun y => Ret (fst x :: fst y, snd y))))
       else load_links r st)                                                 (* soft / external links are not listed *)
   end.
 
-(* loadModernGroup (group.go:223) *)
+(* loadModernGroup (group.go:226) *)
 Definition p_modern (addr : N) (st : lstate) : prog (node * lstate) :=
   with_header addr (fun h =>
     let ty := det_type (ohp_msgs h) in
@@ -220,33 +220,33 @@ Definition p_modern (addr : N) (st : lstate) : prog (node * lstate) :=
       let stab := match last_symtab (ohp_msgs h) with
                   | Some x => Some x
                   | None => if v0 && (addr =? spp_root sb) && negb (spp_rootbtree sb =? 0) && negb (spp_rootheap sb =? 0)
-                            then Some (spp_rootbtree sb, spp_rootheap sb) else None      (* group.go:299 *)
+                            then Some (spp_rootbtree sb, spp_rootheap sb) else None      (* group.go:302 *)
                   end in
       match stab with
       | Some (bt, hp) => bind (p_children bt hp st) (fun x => Ret (Grp (ohp_name h) addr (fst x), snd x))
       | None => Ret (Grp (ohp_name h) addr [], st)
       end).
 
-(* loadObject (group.go:502) *)
+(* loadObject (group.go:511) *)
 Definition p_object (addr : N) (name : bytes) (st0 : lstate) : prog (node * lstate) :=
   match enter st0 addr with
-  | ECycle => Ret (Grp name addr [], st0)                        (* group.go:504: a link back to an enclosing group *)
+  | ECycle => Ret (Grp name addr [], st0)                        (* group.go:513: a link back to an enclosing group *)
   | ERefused => Fail
   | EOk st =>
       let done := fun (x : node * lstate) => Ret (fst x, leave (snd x) addr) in       (* defer file.leaveLoad(address) *)
-      (* group.go:514  sig := readSignature(file.osFile, address) *)
+      (* group.go:523  sig, err := readSignature(file.osFile, address) *)
       p_sig addr (fun sg =>
         if bytes_eqb sg SNOD then
           bind (p_snod sb addr) (fun es =>
           let trad := bind (p_trad addr st) (fun x => done (rename_nonempty name (fst x), snd x)) in
           match es with
           | [(lo, oa, _, _, _)] =>
-              (* group.go:528  rootHeader, err := core.ReadObjectHeader(root); if err != nil { return nil, err } *)
+              (* group.go:540  rootHeader, err := core.ReadObjectHeader(root); if err != nil { return nil, err } *)
               with_header (spp_root sb) (fun h =>
               bind (root_heap h) (fun oheap =>
               match oheap with
               | Some heap =>
-                  (* group.go:547  linkName, err := heap.GetString(...); if err == nil && linkName == name: pure, on bytes read *)
+                  (* group.go:559  linkName, err := heap.GetString(...); if err == nil && linkName == name: pure, on bytes read *)
                   match heap_string heap lo with
                   | Ok nm => if bytes_eqb nm name then bind (rec (RObject oa name) st) done else trad
                   | _ => trad
@@ -256,19 +256,19 @@ Definition p_object (addr : N) (name : bytes) (st0 : lstate) : prog (node * lsta
           | _ => trad
           end)
         else
-          (* group.go:568  header, err := core.ReadObjectHeader(file.osFile, address, file.sb) *)
+          (* group.go:580  header, err := core.ReadObjectHeader(file.osFile, address, file.sb) *)
           with_header addr (fun h =>
             let ty := det_type (ohp_msgs h) in
             if ty =? 0 then bind (rec (RGroup addr) st) (fun x => done (rename_nonempty name (fst x), snd x))
             else if ty =? 1 then done (Dset name addr, st)
             else if ty =? 2 then
               match find_msg_first 3 (ohp_msgs h) with
-              | Some d => bind (lift (dec_datatype d)) (fun _ => done (Dtyp name addr, st))   (* group.go:596 *)
+              | Some d => bind (lift (dec_datatype d)) (fun _ => done (Dtyp name addr, st))   (* group.go:608 *)
               | None => done (Dtyp name addr, st)
               end
             else if v0 then
-              (* group.go:614  group, err := loadGroup(file, address); if err == nil { return group }: dropped,
-                 group.go:623  return error: and converted *)
+              (* group.go:626  group, err := loadGroup(file, address); if err == nil { return group }: dropped,
+                 group.go:635  return error: and converted *)
               Swallow (bind (rec (RGroup addr) st) (fun x => Ret (Some x))) None (fun ox =>
                 match ox with
                 | Some x => done (rename_nonempty name (fst x), snd x)
@@ -280,10 +280,10 @@ Definition p_object (addr : N) (name : bytes) (st0 : lstate) : prog (node * lsta
 (* loadGroup (group.go:205) *)
 Definition p_group (addr : N) (st : lstate) : prog (node * lstate) :=
   if addr =? 0 then Fail else
-  (* group.go:211  sig := readSignature(file.osFile, address) *)
+  (* group.go:211  sig, err := readSignature(file.osFile, address) *)
   p_sig addr (fun sg => if bytes_eqb sg SNOD then rec (RTrad addr) st else rec (RModern addr) st).
 
-(* loadGroupWithCachedSymbolTable (group.go:632) *)
+(* loadGroupWithCachedSymbolTable (group.go:644) *)
 Definition p_cached (addr : N) (name : bytes) (bt hp : N) (st : lstate) : prog (node * lstate) :=
   bind (p_children bt hp st) (fun x => Ret (Grp name addr (fst x), snd x)).
 
@@ -304,13 +304,13 @@ Fixpoint p_load (fuel : nat) (r : req) (st : lstate) : prog (node * lstate) :=
   end.
 End Loader.
 
-(* hdf5.Open (file.go:72).  fsize is what f.Stat() reports (file.go:86). *)
+(* hdf5.Open (file.go:72).  fsize is what f.Stat() reports (file.go:87). *)
 Definition p_open (repaired : bool) (fsize : N) (fuel hfuel : nat) : prog node :=
   (* file.go:134  isHDF5File: r.ReadAt(buf, 0), 8 bytes; an error means "not an HDF5 file" *)
   ReadAt 0 8 (fun s =>
     if negb (bytes_eqb s signature) then Fail else
     bind p_superblock (fun sb =>
-    if fsize <=? spp_root sb then Fail else                       (* file.go:109 *)
+    if fsize <=? spp_root sb then Fail else                       (* file.go:110 *)
     bind (p_load repaired sb (fsize / 8 + 1024) hfuel fuel (RGroup (spp_root sb)) {| vbt := []; loading := []; cnt := 0 |}) (fun x =>
     Ret (rename [47] (fst x))))).
 
